@@ -2039,6 +2039,12 @@ fn with_lifecycle(cases: Vec<Case>, rng: &mut Rng) -> Vec<Case> {
         }) && !news.is_empty()
             && c.iter().take(news.len()).all(|l| l.starts_with("new "))
             && c.iter().all(|l| !l.contains("src="))
+            // (running sums / differences at a bounded integer type are representable for THIS history only)
+            && !c.iter().any(|l| {
+                l.starts_with("new ")
+                    && (l.contains(" integrate T=") || l.contains(" differentiate T="))
+                    && (l.ends_with("T=u8") || l.ends_with("T=i8") || l.ends_with("T=i64"))
+            })
             && c.len() > news.len();
         if !plain || !rng.chance(1, 4) {
             out.push(c);
